@@ -16,13 +16,14 @@ theorem classify_handle_iff (H : Hash) (cfg : Cfg) (peer : Nat) (d : Bytes) (key
       ∃ s, cfg.secretOf peer = .secret s ∧ s ≠ [] ∧
         (cfg.skipVerify = true ∨ isAuthenticRequest H d s = true) ∧
         parse d s = .ok p ∧ key = (peer, p.id) := by
-  sorry
+  exact classify_handle_iff' H cfg peer d key p
 
 /-- the request handed to the handler carries the parsed packet and that secret -/
 theorem request_fields (H : Hash) (cfg : Cfg) (peer : Nat) (d : Bytes) (key : Key) (p : Packet)
     (h : classify H cfg peer d = .handle key p) :
     ∃ s, cfg.secretOf peer = .secret s ∧ parse d s = .ok p ∧ p.secret = s := by
-  sorry
+  obtain ⟨s, hs, _, _, hp, _⟩ := (classify_handle_iff' H cfg peer d key p).mp h
+  exact ⟨s, hs, hp, (parse_secret hp).1⟩
 
 /-- The handler is invoked for a datagram goroutine iff its datagram passed the pipeline and its
     key is not in flight on that Serve call; every other datagram is dropped without the handler. -/
@@ -30,14 +31,20 @@ theorem handler_iff (H : Hash) (cfg : Cfg) (s : St) (t i : Nat) (fate : Fate)
     (ht : s.tasks[t]? = some ⟨i, .spawned fate⟩) :
     (∃ s' key, step H cfg s (.taskRun t) = some s' ∧ s'.tasks[t]? = some ⟨i, .inHandler key⟩) ↔
     (∃ key p, fate = .handle key p ∧ key ∉ s.inflight.getD i []) := by
-  sorry
+  exact handler_iff' H cfg s t i fate ht
 
-theorem dropped_otherwise (H : Hash) (cfg : Cfg) (s : St) (t i : Nat) (fate : Fate)
-    (ht : s.tasks[t]? = some ⟨i, .spawned fate⟩)
-    (hn : ¬ ∃ key p, fate = .handle key p ∧ key ∉ s.inflight.getD i []) :
-    ∃ s', step H cfg s (.taskRun t) = some s' ∧ s'.tasks[t]? = some (⟨i, .done⟩ : Task) ∧
-      s'.log = s.log ++ [.dropped t] ∧ s'.inflight = s.inflight := by
-  sorry
+/-- Every other datagram is dropped without the handler being invoked (in every state reachable in
+    the tree's variant; for arbitrary unreachable states the log could additionally record a double
+    close — `RV.Server.dropped_otherwise_false` — which `C07.closes_le_one` excludes). -/
+theorem dropped_otherwise (H : Hash) (cfg : Cfg) (hv : cfg.variant = .fixed) (nS nD : Nat)
+    (ls : List Label) (t i : Nat) (fate : Fate)
+    (ht : (run H cfg (init nS nD) ls).tasks[t]? = some (⟨i, .spawned fate⟩ : Task))
+    (hn : ¬ ∃ key p, fate = .handle key p ∧ key ∉ (run H cfg (init nS nD) ls).inflight.getD i []) :
+    ∃ s', step H cfg (run H cfg (init nS nD) ls) (.taskRun t) = some s' ∧
+      s'.tasks[t]? = some (⟨i, .done⟩ : Task) ∧
+      s'.log = (run H cfg (init nS nD) ls).log ++ [.dropped t] ∧
+      s'.inflight = (run H cfg (init nS nD) ls).inflight :=
+  dropped_otherwise_reach H cfg hv nS nD ls t i fate ht hn
 
 /-- At most one handler per (Serve call, source, identifier), under every schedule: the dedup table
     has no duplicates and holds exactly the keys of the handlers that are running. -/
@@ -45,13 +52,14 @@ theorem at_most_one_inflight (H : Hash) (cfg : Cfg) (nS nD : Nat) (ls : List Lab
     let s := run H cfg (init nS nD) ls
     (s.inflight.getD i []).Nodup ∧
     ∀ key, key ∈ s.inflight.getD i [] ↔ ∃ t : Nat, s.tasks[t]? = some (⟨i, .inHandler key⟩ : Task) := by
-  sorry
+  have hI := InvG_run H cfg nS nD ls
+  exact ⟨hI.nodup i, hI.mem i⟩
 
 /-- Once a handler has returned, its key is free again: the same identifier is served again. -/
 theorem released_after_return (H : Hash) (cfg : Cfg) (nS nD : Nat) (ls : List Label) (t i : Nat) (key : Key)
     (ht : (run H cfg (init nS nD) ls).tasks[t]? = some ⟨i, .inHandler key⟩) :
     ∃ s', step H cfg (run H cfg (init nS nD) ls) (.taskFinish t) = some s' ∧ key ∉ s'.inflight.getD i [] := by
-  sorry
+  exact released_after_return' H cfg nS nD ls t i key ht
 
 /-- The handler never sees a packet the parser rejects (server clause of C02): every handlerStart
     event belongs to a goroutine whose datagram was classified `handle`. -/
@@ -59,7 +67,7 @@ theorem handler_only_if_parsed (H : Hash) (cfg : Cfg) (nS nD : Nat) (ls : List L
     (h : Event.handlerStart t key ∈ (run H cfg (init nS nD) ls).log) :
     ∃ i, (run H cfg (init nS nD) ls).tasks[t]? = some ⟨i, .inHandler key⟩ ∨
          (run H cfg (init nS nD) ls).tasks[t]? = some ⟨i, .done⟩ := by
-  sorry
+  exact (InvG_run H cfg nS nD ls).log t key h
 
 /-- A reply written by the handler (Response of the request, any attributes, a reply code) encodes
     with a response authenticator that is valid for the request datagram under the peer's secret. -/
@@ -69,6 +77,6 @@ theorem reply_authentic (H : Hash) (hH : ∀ x, (H x).length = 16) (cfg : Cfg) (
     (hc : Rfc.encClass code = .hashReqAuth)
     (he : encode H { response p code with attrs := attrs } = .ok w) :
     isAuthenticResponse H w d p.secret = true := by
-  sorry
+  exact reply_authentic' H hH cfg peer d key p code attrs w h hc he
 
 end RV.C06
